@@ -94,6 +94,7 @@ type Ctx struct {
 	always       bool
 	orders       []int // additional map-iteration orders every case is run under (vmap seam)
 	ordersOff    bool  // the current group opted out of the order sweep (SetOrderSweep)
+	poisoned     bool
 	obs          []string
 	orderObsFail int
 	replayDone   atomic.Bool
@@ -253,6 +254,11 @@ func (t *T) Transitions(n int) { t.c.Transitions(n) }
 func (t *T) Validated(n int)   { t.c.Validated(n) }
 func (t *T) NonTrivial()       { t.c.NonTrivial() }
 
+// Poison tells the engine that the process state cannot be reset after this case (a deadlock leaves goroutines
+// parked inside the library holding its locks): the case is not re-run for confirmation and the worker runs no
+// further cases.
+func (t *T) Poison() { t.c.poisoned = true }
+
 // Observe records something the case computed that must not depend on the map iteration order; the engine
 // compares the observations of the runs of one case under the different orders.
 func (t *T) Observe(s string) { t.c.obs = append(t.c.obs, s) }
@@ -264,6 +270,12 @@ type quietT struct{}
 func (c *Ctx) Case(descFn func() any, fn Check) {
 	own, idx := c.mine()
 	if !own {
+		return
+	}
+	if c.poisoned {
+		// an earlier case left this process in a state that cannot be reset (threads parked inside the library holding
+		// its locks): the cases this worker owns from here on are not run, and the evidence says so
+		c.Cap("worker stopped after a deadlock: the cases it owned after that point were not run")
 		return
 	}
 	if c.journal != nil {
@@ -327,7 +339,10 @@ func (c *Ctx) Case(descFn func() any, fn Check) {
 	if v.PreConfirmed > 0 {
 		confirmed = v.PreConfirmed
 	}
-	for i := 0; i < 4 && v.PreConfirmed == 0; i++ {
+	if c.poisoned {
+		confirmed = 5 // a deadlock is decided by the scheduler's own bookkeeping (no enabled thread); it cannot be re-run in this process
+	}
+	for i := 0; i < 4 && v.PreConfirmed == 0 && !c.poisoned; i++ {
 		vmap.ResetSeq()
 		c.obs = c.obs[:0]
 		v2 := c.runOnce(fn, true)
